@@ -19,6 +19,23 @@ TABLE_CONSTRUCTS = ["devs_priority_values", "devs_event_key", "devs_step_priorit
 S = D.S
 
 
+def _add_running(rng, case):
+    """user code that sets model.running = False (and possibly True again) at chosen ticks - from model.step itself or from a scheduled
+    event.  Model.run_model and the solara controllers look at that flag; the simulators must not: the statement says model.step runs at
+    EVERY tick, so steps = clock must keep holding on every run path."""
+    sc = dict((int(k), list(v)) for k, v in case["script"])
+    ticks = sorted(rng.sample(range(1, 9), rng.randint(1, 3)))
+    flag = False
+    for k in ticks:
+        sc.setdefault(k, []).insert(rng.randint(0, len(sc.get(k, []))), ["running", flag])
+        flag = not flag if rng.random() < 0.5 else flag
+    case["script"] = [[k, v] for k, v in sorted(sc.items())]
+    evs = [o for o in case["ops"] if o[0] == "sched"]
+    if evs and rng.random() < 0.5:
+        rng.choice(evs)[7].insert(0, ["running", False])
+    return case
+
+
 def _partition_case(rng, cls):
     g = D.Gen(rng, cls)
     unit = S if g.abm else 4
@@ -100,9 +117,16 @@ def _composition_cases(Tmax, with_next):
 def gen_cases(rng, tier):
     cases = []
     n = 500 if tier == "quick" else 30000
-    for _ in range(n):
-        cases.append(_partition_case(rng, "ABM" if rng.random() < 0.65 else "DEVS"))
+    for i in range(n):
+        c = _partition_case(rng, "ABM" if rng.random() < 0.65 else "DEVS")
+        if i % 4 == 0:
+            _add_running(rng, c)          # a quarter of the histories: user code flips model.running
+        cases.append(c)
     cases += list(_composition_cases(4 if tier == "quick" else 6, True))
+    # user code that raises (also IndexError) in the middle of a run call: a run call that returns normally has stepped every tick
+    from props import C14 as _C14
+    for _ in range(40 if tier == "quick" else 1500):
+        cases.append(_C14._exc_case(rng, "ABM"))
     return cases
 
 
@@ -110,8 +134,9 @@ def enumerate_cases(tier, broken=False):
     yield from _composition_cases(5 if tier == "quick" else 7, False)
     yield from _composition_cases(5 if tier == "quick" else 6, True)
     rng = random.Random(1515)
-    for _ in range(300 if tier == "quick" else 2000):
-        yield _partition_case(rng, rng.choice(["ABM", "ABM", "DEVS"]))
+    for i in range(300 if tier == "quick" else 2000):
+        c = _partition_case(rng, rng.choice(["ABM", "ABM", "DEVS"]))
+        yield _add_running(rng, c) if i % 2 else c
 
 
 RULE = ("histories = one ABMSimulator (65%) / DEVSimulator after setup, 0-6 events scheduled up front (with user code that schedules further events, "
